@@ -70,7 +70,9 @@ func parseLineRules(isPreamble bool, input string) (string, Rules, error) {
 	var r Rule
 	var err error
 
-	for _, line := range strings.Split(input, "\n") {
+	// The lines that are not line rules, the line rules being emptied
+	lines := strings.Split(input, "\n")
+	for idx, line := range lines {
 		tmp := strings.TrimLeft(line, "\t ")
 		switch {
 		case strings.HasPrefix(tmp, COMMENT.Tok()):
@@ -79,7 +81,7 @@ func parseLineRules(isPreamble bool, input string) (string, Rules, error) {
 				return "", nil, err
 			}
 			res = append(res, r)
-			input = strings.Replace(input, line, "", 1)
+			lines[idx] = ""
 
 		case strings.HasPrefix(tmp, INCLUDE.Tok()):
 			r, err = newInclude(parseRule(line)[1:])
@@ -87,7 +89,7 @@ func parseLineRules(isPreamble bool, input string) (string, Rules, error) {
 				return "", nil, err
 			}
 			res = append(res, r)
-			input = strings.Replace(input, line, "", 1)
+			lines[idx] = ""
 
 		case strings.HasPrefix(tmp, VARIABLE.Tok()) && isPreamble:
 			r, err = newVariable(parseRule(line))
@@ -95,10 +97,10 @@ func parseLineRules(isPreamble bool, input string) (string, Rules, error) {
 				return "", nil, err
 			}
 			res = append(res, r)
-			input = strings.Replace(input, line, "", 1)
+			lines[idx] = ""
 		}
 	}
-	return input, res, nil
+	return strings.Join(lines, "\n"), res, nil
 }
 
 // Parse the comma rules from a raw string. It splits rules string into tokens
